@@ -23,6 +23,8 @@ type FuncResult struct {
 	NoInv     []string
 	NoTerm    []string
 	Ex        *Exec
+	BoundedPaths int
+	BoundedNote  string
 }
 
 // VerifyFunc generates the obligations of fn. With "model split" the function is executed twice:
